@@ -356,6 +356,14 @@ pub fn run(plan: &Plan, workdir: &Path) -> Outcome {
             if plan.steps.len() > 250 || plan.seed % 64 == 0 {
                 let ha = crate::driver::commit_hashes_subprocess(plan, "a");
                 let hb = crate::driver::commit_hashes_subprocess(&p2, "b");
+                // (the comparison presupposes that a build is a function of database, options and seed: a
+                // second execution of the very same history must give the same bytes, or nothing is decided)
+                let ha2 = crate::driver::commit_hashes_subprocess(plan, "a2");
+                if ha.is_some() && ha2.is_some() && ha != ha2 {
+                    // direct evidence that, in this tree, a build is not a function of database, options and seed
+                    out.stats.probe("abort_differential_premise_refuted");
+                    return out;
+                }
                 if let (Some(ha), Some(hb)) = (ha, hb) {
                     out.stats.probe("abort_differential_in_fresh_processes");
                     if ha != hb {
@@ -376,6 +384,17 @@ pub fn run(plan: &Plan, workdir: &Path) -> Outcome {
             }
             let a = committed_dumps_without_choices(plan, workdir);
             let b = committed_dumps_without_choices(&p2, workdir);
+            // (same presupposition: before blaming an abort, the history as it is must give the same bytes twice)
+            if let (Some(x), Some(y)) = (&a, &b) {
+                if x != y {
+                    let f1 = crate::driver::commit_hashes_subprocess(plan, "p1");
+                    let f2 = crate::driver::commit_hashes_subprocess(plan, "p2");
+                    if f1.is_some() && f2.is_some() && f1 != f2 {
+                        out.stats.probe("abort_differential_premise_refuted");
+                        return out;
+                    }
+                }
+            }
             if let (Some(a), Some(b)) = (a, b) {
                 out.stats.probe("abort_differential_byte_comparison");
                 let diff = if a.len() != b.len() {
